@@ -89,6 +89,7 @@ def judge_forms(ctx, op, forms, ref, exp, wit, exact=True, scale=1.0, charge=Non
         ctx.count("forms", f"{op}:some-forms-refuse")
     if nontrivial is not None and oks:
         ctx.nontrivial((op, tuple(sorted(oks)), nontrivial))
+        ctx.sample({"op": op, "forms": sorted(outs), "forms_that_returned": sorted(oks), **{k: v for k, v in wit.items() if k not in ("x", "y")}, "x": {k: v for k, v in wit.get("x", {}).items() if k != "blocks"} if isinstance(wit.get("x"), dict) else None}, limit=3)
 
 
 def dt(rng):
